@@ -198,3 +198,48 @@ M("C14", "clip-differs", H, "        gap_data = gap_data[clip_start:clip_end, ..
 M("C14", "clip-end", H, "        clip_end = new_end_date - from_until[0] + 1", "        clip_end = new_end_date - from_until[0]", "C14-R2")
 M("C14", "hpf-swapped", H, "    trend = type(self)(start_date=start_date, values=trend_data, )\n    gap = type(self)(start_date=start_date, values=gap_data, )", "    trend = type(self)(start_date=start_date, values=gap_data, )\n    gap = type(self)(start_date=start_date, values=trend_data, )", "C14-R2")
 T("C14", "twin-gap-rewritten", H, "        gap_data = extended_data - trend_data", "        gap_data = -trend_data + extended_data")
+
+# ------------------------------------------------------------------------------------------------ C20
+M("C20", "variant-copy-drops-solution", "simultaneous/_variants.py", 'for i in ("levels", "changes", "solution", ):', 'for i in ("levels", "changes", ):', "C20-R1")
+M("C20", "redvar-shares-invariant", "red_vars/main.py", "new._invariant = _co.deepcopy(self._invariant, )", "new._invariant = self._invariant", "C20-R1")
+M("C20", "dataslate-variant-alias", "dataslates/_variants.py", "        new.data = self.data.copy()", "        new.data = self.data", "C20-R1") if False else None
+M("C20", "redvar-variant-shares-system", "red_vars/_variants.py", "        new.system = self.system.copy()", "        new.system = self.system", "C20-R1") if False else None
+M("C20", "expand-variants-alias", "has_variants.py", "self._variants.append(self._variants[-1].copy(), )", "self._variants.append(self._variants[-1], )", "C20-R2")
+M("C20", "setstate-no-rebuild", "simultaneous/_invariants.py", "            setattr(self, k, state[k])\n        self._populate_derived_attributes()", "            setattr(self, k, state[k])", "C20-R3")
+M("C20", "updater-serialized", "simultaneous/_invariants.py", '        "__description__",\n    )\n\n    _derived_slots = (\n        "dynamic_descriptor",\n        "steady_descriptor",\n        "update_steady_autovalues_in_variant",', '        "__description__",\n        "update_steady_autovalues_in_variant",\n    )\n\n    _derived_slots = (\n        "dynamic_descriptor",\n        "steady_descriptor",', "C20-R3")
+M("C20", "equator-func-in-state", "equators/plain.py", '        "max_shift",\n    )\n\n    _nonstate_slots = (\n        "_func",\n    )', '        "max_shift",\n        "_func",\n    )\n\n    _nonstate_slots = (\n    )', "C20-R3")
+M("C20", "explanatory-getstate-keeps-func", "explanatories/main.py", '        state["eval_level"] = None\n', "", "C20-R3")
+M("C20", "quantity-join-none", "quantities.py", '" ".join(self.attributes or (), ),', '" ".join(self.attributes, ),', "C20-R4")
+M("C20", "equation-no-split", "equations.py", 'self = klass(human=human, kind=EquationKind.from_portable(kind), description=description, attributes=set(attributes.split(" ", )), )', 'self = klass(human=human, kind=EquationKind.from_portable(kind), description=description, attributes=set(attributes), )', "C20-R4") if False else None
+M("C20", "quantity-fields-swapped", "quantities.py", "        kind, human, logly, description, attributes = portable", "        kind, human, description, logly, attributes = portable", "C20-R4")
+M("C20", "flags-dropped", "simultaneous/_invariants.py", "return klass.from_source(source, check_syntax=False, **flags, )", "return klass.from_source(source, check_syntax=False, )", "C20-R4")
+M("C20", "ant-shocks-exported", "simultaneous/_invariants.py", '"quantities": _quantities.to_portable(quantities, ),', '"quantities": _quantities.to_portable(self.quantities, ),', "C20-R4")
+M("C20", "kind-codes-collide", "quantities.py", '    QuantityKind.ANTICIPATED_SHOCK_VALUE: "#v",', '    QuantityKind.ANTICIPATED_SHOCK_VALUE: "#u",', "C20-R4")
+T("C20", "twin-copy-explicit", "red_vars/main.py", "new._invariant = _co.deepcopy(self._invariant, )", "new._invariant = _co.deepcopy(self._invariant)")
+
+# ------------------------------------------------------------------------------------------------ C18
+ES = "red_vars/_estimators.py"
+M("C18", "none-intercept-deref", ES, "(c.reshape((-1, 1)) if c is not None else 0)", "c.reshape((-1, 1))", "C18-R1")
+M("C18", "lag-block-off-by-one", ES, "        y[:, order-i:-i]", "        y[:, order-i+1:-i+1]", "C18-R2") if False else None
+M("C18", "lag-block-stop", ES, "        y[:, order-i:-i]", "        y[:, order-i:]", "C18-R2")
+M("C18", "y0-start", ES, "    y0 = y[:, order:]", "    y0 = y[:, order-1:]", "C18-R2")
+M("C18", "x-start", ES, "    x = data[exogenous_qids, order:]", "    x = data[exogenous_qids, :]", "C18-R2")
+M("C18", "regressor-order", ES, "    rhs_est = _np.vstack([y1, x, k, ])[:, where]", "    rhs_est = _np.vstack([x, y1, k, ])[:, where]", "C18-R2")
+M("C18", "B-includes-intercept", ES, "        B = beta[:, num_lagged_endogenous:-1]", "        B = beta[:, num_lagged_endogenous:]", "C18-R2")
+M("C18", "residual-sign", ES, "    u = y0 - A @ y1 - B @ x - (c", "    u = y0 - A @ y1 + B @ x - (c", "C18-R2")
+M("C18", "residual-write-offset", ES, "    data_array[residual_qids, order:] = residual_estimates", "    data_array[residual_qids, order-1:] = residual_estimates", "C18-R2")
+M("C18", "ols-transposed", "fords/least_squares.py", "    My = rhs @ lhs.T", "    My = lhs @ rhs.T", "C18-R3")
+M("C18", "ols-no-final-T", "fords/least_squares.py", "    return _np.linalg.solve(Mx, My).T", "    return _np.linalg.solve(Mx, My)", "C18-R3")
+M("C18", "state-leads", "red_vars/_invariants.py", "Token(qid=qid, shift=-shift, )", "Token(qid=qid, shift=shift, )", "C18-R4")
+M("C18", "init-column", "fords/simulators.py", "        first_column - 1,", "        first_column,", "C18-R4")
+M("C18", "companion-identity-shape", "red_vars/_variants.py", "dynamic_identity = _np.eye(num_extra, num_endogenous * order, )", "dynamic_identity = _np.eye(num_extra, num_extra, )", "C18-R5")
+M("C18", "companion-P-shape", "red_vars/_variants.py", "return _np.eye(num_lagged_endogenous, num_endogenous, dtype=float, )", "return _np.eye(num_endogenous, num_endogenous, dtype=float, )", "C18-R5")
+M("C18", "impact-not-padded", "red_vars/_simulators.py", "    exogenous_impact = _np.pad(exogenous_impact, ((0, num_extra), (0, 0)), )\n", "", "C18-R5")
+T("C18", "twin-residual-reordered", ES, "    u = y0 - A @ y1 - B @ x - (c", "    u = y0 - B @ x - A @ y1 - (c")
+T("C18", "twin-none-guard-if", ES, "    u = y0 - A @ y1 - B @ x - (c.reshape((-1, 1)) if c is not None else 0)", "    u = y0 - A @ y1 - B @ x\n    if c is not None:\n        u = u - c.reshape((-1, 1))")
+
+# ------------------------------------------------------------------------------------------------ C16
+M("C16", "check-after-store", "sequentials/_invariants.py", "        if sorted(new_order) != list(range(self.num_equations)):\n            raise ValueError(\"New equation order must be a permutation of integers from 0 to num_equations-1\")\n        #\n        self.explanatories = [\n            self.explanatories[i]\n            for i in new_order\n        ]", "        self.explanatories = [\n            self.explanatories[i]\n            for i in new_order\n        ]\n        if sorted(new_order) != list(range(self.num_equations)):\n            raise ValueError(\"New equation order must be a permutation of integers from 0 to num_equations-1\")", "C16-R1")
+M("C16", "check-no-raise", "sequentials/_invariants.py", "            raise ValueError(\"New equation order must be a permutation of integers from 0 to num_equations-1\")", "            ValueError(\"New equation order must be a permutation of integers from 0 to num_equations-1\")", "C16-R1")
+M("C16", "reorder-before-compute", "sequentials/main.py", "        eids_reordered = _blazer.sequentialize_strictly(self.incidence_matrix, )\n        self.reorder_equations(eids_reordered, )", "        self.reorder_equations(tuple(range(self.num_equations)), )\n        eids_reordered = _blazer.sequentialize_strictly(self.incidence_matrix, )", "C16-R2")
+T("C16", "twin-check-eq-form", "sequentials/_invariants.py", "        if sorted(new_order) != list(range(self.num_equations)):\n            raise ValueError(\"New equation order must be a permutation of integers from 0 to num_equations-1\")", "        if sorted(new_order) == list(range(self.num_equations)):\n            pass\n        else:\n            raise ValueError(\"New equation order must be a permutation of integers from 0 to num_equations-1\")")
